@@ -1,5 +1,76 @@
 package main
 
-// Scenario drivers: replay of refuted obligations on the real code (go test -overlay). Filled in per property.
+// Scenario drivers: a refuted obligation that has a driver is replayed on the real code. The driver is an
+// in-package Go test under /verif/replay, injected with `go test -overlay` (nothing is written to /repo); it fails
+// with a line containing VERIF-REPRO (or a race-detector report) when the real code shows the behaviour the
+// obligation forbids. Table: /verif/replay/drivers.json.
 
-func runDriverFor(verif, repo, prop string, o *Obligation, path string) bool { return false }
+import (
+	"context"
+	"encoding/json"
+	"os"
+	"os/exec"
+	"path/filepath"
+	"strings"
+	"time"
+)
+
+type driverSpec struct {
+	Property     string `json:"property"`
+	ClausePrefix string `json:"clause_prefix"`
+	File         string `json:"file"`
+	ModDir       string `json:"moddir"`
+	PkgDir       string `json:"pkgdir"`
+	Run          string `json:"run"`
+	Race         bool   `json:"race"`
+}
+
+// runDriverFor returns true when a driver reproduced the violation on the real code; its output is appended to
+// the replay file either way.
+func runDriverFor(verif, repo, prop string, o *Obligation, path string) bool {
+	var specs []driverSpec
+	if loadJSON(filepath.Join(verif, "replay", "drivers.json"), &specs) != nil {
+		return false
+	}
+	for _, d := range specs {
+		if d.Property != prop || !strings.HasPrefix(o.ClauseKey, d.ClausePrefix) {
+			continue
+		}
+		tmp, err := os.MkdirTemp("", "govc-replay-")
+		if err != nil {
+			return false
+		}
+		defer os.RemoveAll(tmp)
+		target := filepath.Join(repo, d.ModDir, d.PkgDir, "zz_verif_replay_test.go")
+		ov, _ := json.Marshal(map[string]map[string]string{"Replace": {target: filepath.Join(verif, "replay", d.File)}})
+		ovf := filepath.Join(tmp, "overlay.json")
+		os.WriteFile(ovf, ov, 0o644)
+		args := []string{"test", "-overlay", ovf, "-vet=off", "-count=1", "-timeout", "60s", "-run", "^" + d.Run + "$"}
+		if d.Race {
+			args = append(args, "-race")
+		}
+		args = append(args, "./"+d.PkgDir)
+		ctx, cancel := context.WithTimeout(context.Background(), 150*time.Second)
+		defer cancel()
+		cmd := exec.CommandContext(ctx, "go", args...)
+		cmd.Dir = filepath.Join(repo, d.ModDir)
+		cmd.Env = goEnv()
+		out, err := cmd.CombinedOutput()
+		text := string(out)
+		reproduced := err != nil && (strings.Contains(text, "VERIF-REPRO") || strings.Contains(text, "DATA RACE"))
+		// append to the replay file
+		var rep map[string]interface{}
+		if loadJSON(path, &rep) == nil && rep != nil {
+			if len(text) > 6000 {
+				text = text[:6000] + "\n…"
+			}
+			rep["driver"] = map[string]interface{}{"test": d.Run, "file": "/verif/replay/" + d.File, "command": "go " + strings.Join(args, " "), "dir": cmd.Dir,
+				"reproduced_on_real_code": reproduced, "output": text}
+			writeJSON(path, rep)
+		}
+		if reproduced {
+			return true
+		}
+	}
+	return false
+}
